@@ -55,6 +55,15 @@ CHECKS["C07"] = dict(engine="CramDoc", ref="3 (C07)",
     note="Trusted: TLC. Documents containing indented lines that belong to no command are judged only for 'never crashes' (the statement is silent about them). Titles are compared only for the first command after an unindented line.",
     technique="TLA+ positional reference + line machine, TLC equivalence over all short line sequences, replay into CramParser::parse, TLC comparison of every result")
 
+CHECKS["C08"] = dict(engine="ExpectationGrammar", ref="3 (C08)",
+    text="specs/ExpectationGrammar.tla states the documented grammar at token level (ParseRef: only a final ` (<kind><quantifier>)` group with kind and/or quantifier is the modifier, everything before it is the expression verbatim, anything else is `equal` on the whole line; a parse error is acceptable only for an explicitly marked regex / escaped expression that can be malformed). TLC enumerates 21315 token lines (prefix of <= 2 tokens incl. backslash, `[`, `*`, parentheses, TAB + up to two trailing groups from a catalogue of all well-formed shapes over every alias and quantifier and 15 near-miss shapes) and checks sanity theorems of the reference. Each line is rendered (several spellings incl. non-ASCII words), parsed by the real ExpectationMaker, rendered canonically under both escapers, parsed again and compared on 12 candidate lines. TLC recomputes ParseRef for every record and judges parse result (class, kind, quantifier, expression) and the round trip (same quantifier, same matching).",
+    note="Trusted: TLC. Token spellings are a sample. Known findings (listed in known_findings.json, printed as KNOWN-FINDING): TAB/NBSP separator accepted as modifier separator; canonical rendering of equal expressions ending in modifier-like text; non-equal kinds with escaper-rewritten characters; escaped kind with literal backslash.",
+    technique="TLA+ token-level grammar, TLC-enumerated lines replayed into ExpectationMaker::parse + canonical round trip, TLC re-evaluation of the documented reading on every record")
+CHECKS["C11"] = dict(engine="Escape", ref="3 (C11)",
+    text="specs/Escape.tla models the escaper and the reader of escaped text at byte level over 13 byte classes (printable incl. the letters that follow a backslash in escape sequences, backslash, TAB, named / other control, multi-byte printable, multi-byte category-other, invalid UTF-8): TLC checks for every class sequence up to length 3 (thorough 4) and both modes that the intended encoding is lossless (Decode(Encode(s)) = s) and printable. Every sequence is then concretised (3-6 representatives per class), pushed through the real Escaper::escaped_expectation, read back through ExpectationMaker::parse as the kind it announces and tested on the original line and on ~8 neighbouring lines per character; plus a sweep over all 256 single bytes (alone and after a backslash) and Unicode scalars (all below U+3000, every 97th above; thorough: all). TLC judges every record (printable for the mode, readable, matches original, matches no neighbour) and compares the text with the intended encoding (drift).",
+    note="Trusted: TLC; unicode_categories for the printable judgement in unicode mode; neighbours are a sample of the lines at edit distance 1.",
+    technique="TLA+ byte-level spec of escaper + reader, TLC check of losslessness/printability, class sequences and byte/scalar sweeps replayed into the real escaper and parser, TLC judgement of every record")
+
 NOT_YET = {
 }
 
@@ -102,6 +111,8 @@ def main():
              "kind_free_text": "TLA+ spec of Markdown test documents: reference reading MdRef, tokenizer machine MdTok, MC_MarkdownDoc (equivalence + GEN), MarkdownTrace (comparison of real parses)"},
             {"name": "CramDoc", "path": "specs/CramDoc.tla", "serves_properties": ["C07"],
              "kind_free_text": "TLA+ spec of Cram documents: positional reference CramRef, line machine CramTok, MC_CramDoc (equivalence + GEN), CramTrace (comparison of real parses)"},
+            {"name": "ExpectationGrammar", "path": "specs/ExpectationGrammar.tla", "serves_properties": ["C08"], "kind_free_text": "token-level grammar of expectation lines (ParseRef), MC_ExpectationGrammar (GEN + sanity), ExpectationTrace (judgement of real parses and round trips)"},
+            {"name": "Escape", "path": "specs/Escape.tla", "serves_properties": ["C11"], "kind_free_text": "byte-level model of escaper and escaped-text reader, MC_Escape (lossless/printable + GEN), EscapeTrace (judgement of real escaper output)"},
             {"name": "Rules", "path": "specs/Rules.tla", "serves_properties": ["C04"],
              "kind_free_text": "TLA+ reference semantics of the expectation kinds; MC_Rules (enumeration + sanity), RulesTrace (re-evaluation of implementation answers)"},
         ],
